@@ -386,6 +386,8 @@ def r10_any_guard_only_on_request(ctx):
     b = ctx.need('C07.R10', 'impl From<RouteProperties> for AnnotationProperties', cands[0] if len(cands) == 1 else None)
     if b is None:
         return
+    from ..inline import inlined
+    b = inlined(ctx.fb, b, crate=AP)          # the decision may sit in a private helper that is handed the two flags
     defs = Defs(b)
 
     def promoted_option_bool(body, op):
